@@ -268,24 +268,27 @@ class RealInst:
             return 'r=' + exc_enum(v, 'check')
         return 'r=' + ','.join(str(x) for x in req_names(v))
 
+    def idof(self, c):
+        for d in (self.kids, self.gone, getattr(self, 'failed', {})):
+            for i, o in d.items():
+                if o is c:
+                    return str(i)
+        return '?'
+
     def obs(self):
-        inv = {id(c): i for i, c in self.kids.items()}
-        extra = {}
-        def idof(c):
-            if id(c) in inv:
-                return str(inv[id(c)])
-            # a child the ledger does not know: zombie (failed / removed object still attached)
-            for d in (self.gone, getattr(self, 'failed', {})):
-                for i, o in d.items():
-                    if o is c:
-                        return 'Z%d' % i
-            return 'Z?'
         (s, o), out = quiet(self.e.get_children)
         self.printed += out
         if s == 'exc':
             return 'o=' + exc_enum(o, 'obs')
         u = self.e.get_children(ordered=False)
-        return 'o=%s u=%s %s' % (','.join(idof(c) for c in o), ','.join(idof(c) for c in u), self.required())
+        return 'o=%s u=%s %s' % (','.join(self.idof(c) for c in o), ','.join(self.idof(c) for c in u), self.required())
+
+    def zombies(self):
+        """children in either view that the ledger (successful adds minus removes) does not hold"""
+        live = {id(c) for c in self.kids.values()}
+        o = self.e.get_children() if self.chk else []
+        u = self.e.get_children(ordered=False)
+        return [self.idof(c) for c in o if id(c) not in live], [self.idof(c) for c in u if id(c) not in live]
 
     def parents_ok(self):
         bad = [i for i, c in self.kids.items() if c.get_parent() is not self.e]
@@ -319,7 +322,7 @@ def op_line(i, op):
     if k == 'obs':
         return 'obs %d' % i
     if k == 'check':
-        return 'obs %d' % i
+        return 'check %d %d' % (i, op[1])
     raise ValueError(op)
 
 
@@ -329,14 +332,20 @@ def replay_real(tkey, hist, chk=True, cls=None):
     return inst, res
 
 
-def real_probe(tkey, hist, chk=True, cls=None):
-    """acceptance of one more child of every symbol, each on a fresh replay (the subject is not touched)"""
+def real_probe(tkey, hist, chk=True, cls=None, obs_each=True):
+    """acceptance of one more child of every symbol, each on a fresh replay of the same call
+    sequence (including the observation calls, which rewrite flags) -- the subject is not touched"""
     parts = []
     for n in ALPHA[tkey]:
-        inst, _ = replay_real(tkey, [op for op in hist if op[0] not in ('obs', 'check')], chk, cls)
+        inst = RealInst(tkey, chk, cls)
+        for op in hist:
+            apply_real(inst, op)
+            if obs_each and op[0] not in ('obs', 'check'):
+                inst.obs()
+        inst.obs()
         r = inst.add(10 ** 6, n)
         if r == 'ok':
-            parts.append('%d:ok:%s' % (ix(n), inst.required()[2:]))
+            parts.append('%d:ok:%s' % (ix(n), inst.obs().split(' ')[-1][2:]))
         else:
             parts.append('%d:%s:' % (ix(n), r))
     return 'p=' + ';'.join(parts)
